@@ -50,20 +50,20 @@ def main():
         rc1, out1 = run([PY, local_demo], cwd=scratch, env=env, timeout=600)
         meta["demo_with_change"] = {"exit": rc1, "tail": out1[-600:]}
         if not skip_tests:
-            rct, outt = run([PY, "-m", "pytest", "-q", "-p", "no:cacheprovider", "-n", "8", "tests"], cwd=scratch, env=env, timeout=1800)
+            rct, outt = run([PY, "-m", "pytest", "-q", "-p", "no:cacheprovider", "-n", "4", "tests"], cwd=scratch, env=env, timeout=1800)
             tail = outt.strip().splitlines()[-1] if outt.strip() else ""
             meta["suite_with_change"] = {"exit": rct, "summary": tail}
         # our checks against the patched tree
         caught = {}
         t0 = time.time()
         from_dir = VERIF
-        rcc, outc = run([PY, "-m", "sa", "all"], cwd=from_dir, env={"SA_REPO": scratch, "SA_EVIDENCE_DIR": "/tmp/seed_evidence", "SA_REPLAY_DIR": "/tmp/seed_replay"}, timeout=1200)
+        rcc, outc = run([PY, "-m", "sa", "all"], cwd=from_dir, env={"SA_REPO": scratch, "SA_EVIDENCE_DIR": f"/tmp/seed_evidence_{name}", "SA_REPLAY_DIR": f"/tmp/seed_replay_{name}"}, timeout=1200)
         # findings that the unchanged tree produces as well (there should be none) are not credit for the change
         base_file = os.environ.get("SEED_BASELINE")
         if base_file and os.path.exists(base_file):
             baseline = set(json.load(open(base_file)))
         else:
-            _, outb = run([PY, "-m", "sa", "all"], cwd=from_dir, env={"SA_EVIDENCE_DIR": "/tmp/seed_evidence", "SA_REPLAY_DIR": "/tmp/seed_replay"}, timeout=1200)
+            _, outb = run([PY, "-m", "sa", "all"], cwd=from_dir, env={"SA_EVIDENCE_DIR": f"/tmp/seed_evidence_{name}", "SA_REPLAY_DIR": f"/tmp/seed_replay_{name}"}, timeout=1200)
             baseline = {ln.split("] ", 1)[1][:300] for ln in outb.splitlines() if ln.startswith("  claripy/") and ": [" in ln and "] " in ln}
             if base_file:
                 json.dump(sorted(baseline), open(base_file, "w"))
@@ -95,6 +95,8 @@ def main():
     finally:
         subprocess.run(["git", "-C", "/repo", "worktree", "remove", "--force", scratch], capture_output=True)
         shutil.rmtree(scratch, ignore_errors=True)
+        shutil.rmtree(f"/tmp/seed_evidence_{name}", ignore_errors=True)
+        shutil.rmtree(f"/tmp/seed_replay_{name}", ignore_errors=True)
     outdir = os.path.join(VERIF, "seeded", name)
     os.makedirs(outdir, exist_ok=True)
     for src, dst in ((patch, os.path.join(outdir, "patch.diff")), (demo, os.path.join(outdir, "demo.py"))):
